@@ -133,6 +133,18 @@ def _(n, T):
     return [F(n, "void", [P("d", "cstr_out", charlen=40), P("s", "cstr_in")])]
 
 
+@shape("const_ptr_inout", types=["int", "double", "bool"], wraps=("c", "fortran"), doc="docs/input.rst intent: a pointer that is itself const (T * const) still points to writable data; the default intent is inout")
+def _(n, T):
+    return [F(n, "void", [P("a", "ptr_inout", T, cptr=True)]),
+            F(n + "b", "int", [P("k", "val", "int"), P("s", "cstr_inout", cptr=True)])]
+
+
+@shape("const_ptr_inout_str", langs=("c++",), wraps=("c", "fortran"), doc="docs/input.rst intent: std::string * const")
+def _(n, T):
+    return [F(n, "void", [P("s", "str_ptr_inout", cptr=True)]),
+            F(n + "b", "int", [P("a", "ptr_in", "int"), P("s", "str_ptr_inout", cptr=True)])]
+
+
 @shape("cstr_inout", wraps=("c", "fortran"), doc="strings.yaml passCharPtrInOut")
 def _(n, T):
     return [F(n, "void", [P("s", "cstr_inout")])]
@@ -436,6 +448,19 @@ def _(n, T):
             F("~", "void", [], cls=c, dtor=True, fid=c + "#dtor", dtor_name="delete")]
 
 
+@shape("class_arg_const", langs=("c++",), wraps=("c",), doc="docs/classes.rst class arguments (classes.yaml passClassByValue / useclass): const and non-const reference / pointer to an object; an overload pair that differs only in the constness of the class argument")
+def _(n, T):
+    c = n + "_B"
+    return [F(c, "void", [], cls=c, ctor=True, fid=c + "#ctor0"),
+            F("~", "void", [], cls=c, dtor=True, fid=c + "#dtor", dtor_name="delete"),
+            F("peek", "int", [], cls=c, const=True, fid=c + "#peek"),
+            F(n + "ins", "int", [P("b", "cls_cref", cls=c)], fid=n + "ins#const"),
+            F(n + "ins", "int", [P("b", "cls_ref", cls=c)], fid=n + "ins#mutable"),
+            F(n + "mix", "int", [P("k", "val", "int"), P("b", "cls_ref", cls=c)], fid=n + "mix#mutable"),
+            F(n + "mix", "int", [P("k", "val", "int"), P("b", "cls_cref", cls=c)], fid=n + "mix#const"),
+            F(n + "one", "int", [P("b", "cls_cptr", cls=c), P("k", "val", "int")])]
+
+
 def instances(lang, wraps=None, need=None):
     out = []
     for s in SHAPES.values():
@@ -502,6 +527,9 @@ def yaml_of(lib):
             if "declarations" in e:
                 fix(e["declarations"])
     fix(d["declarations"])
+    if lib.get("raw_decls"):
+        # declarations outside the model (their own names are not judged): placed first, before everything modelled
+        d["declarations"] = copy.deepcopy(lib["raw_decls"]) + d["declarations"]
     return d
 
 
@@ -642,6 +670,8 @@ def call_plan(lib, r, per_func=6, hostile=True):
     for fi, f in enumerate(lib["functions"]):
         if f.get("cls"):
             continue           # object histories are planned separately
+        if any(p["kind"] in ("cls_cptr", "cls_cref", "cls_ref") for p in f["params"]):
+            continue           # needs live objects: planned with the object histories
         for vj, v in enumerate(f["variants"]):
             T = v["template"]
             ins = [p for p in f["params"][:v["nparams"]] if p["kind"] in ir.IN_KINDS and p["kind"] != "implied"]
